@@ -126,6 +126,9 @@ def finish(ck: Check, tier: str, t0: float, explanation: str, assumptions: list[
             "inlined_into_callers": rep_.get("inlined", []),
             "kept_as_calls": rep_.get("opaque", []),
             "renamed_back_to_reference_names": rep_.get("renamed", {}),
+            # rewrites that need (light) type facts: container truthiness -> len(), X.sort() -> sorted(), module constants,
+            # try/except KeyError -> membership tests, TypedDict constructors -> dict displays
+            "type_fact_rewrites": getattr(ck.prog.repo, "type_normalisation", {}),
         }
         samples = [o.as_dict() for o in ck.obs[:40]]
         # make sure every rule is represented among the samples
